@@ -143,6 +143,7 @@ CHECKS["C05"] = dict(
     units=[dict(pkg="app", test="TestVerifC05App", shards_quick=12, shards_thorough=16, budget_quick=200, budget_thorough=1500),
            dict(pkg="app", test="TestVerifC05AppLate", shards_quick=12, shards_thorough=16, budget_quick=200, budget_thorough=1500),
            dict(pkg="app", test="TestVerifC05AppFlap", shards_quick=8, shards_thorough=16, budget_quick=200, budget_thorough=1500),
+           dict(pkg="app", test="TestVerifC05AppMuted", shards_quick=8, shards_thorough=16, budget_quick=200, budget_thorough=1500),
            dict(pkg="dispatch", test="TestVerifC05Sched", gomaxprocs=1, shards_quick=4, shards_thorough=16, budget_quick=60, budget_thorough=1500)],
 )
 
